@@ -88,7 +88,7 @@ func init() {
 			for _, bin := range []string{"jd-v2", "jd-top"} {
 				for _, t := range c12CLITargets {
 					for _, p := range c12CLIPatches {
-						for _, how := range []string{"file", "stdin"} {
+						for _, how := range []string{"file", "stdin", "yaml-file"} {
 							e.Emit(engine.Case{Kind: "c12cli:" + bin, Leg: "cli/" + bin, A: t, B: p, X: how})
 						}
 					}
@@ -144,7 +144,8 @@ func hasEmptyObjectMember(v V, top bool) bool {
 
 var c12CLITargets = []string{`{"a":1,"b":{"c":2,"d":null},"e":[1,2]}`, `{"a":1,"big":"` + strings.Repeat("x", 70000) + `","c":3}`, `[1,2]`, `{}`, `"s"`,
 	"{\r\n  \"a\": 1,\r\n  \"b\": {\"c\": 2}\r\n}\r\n", `{"pct":"100%","b":{"c":"%s"}}`}
-var c12CLIPatches = []string{`{"a":null,"b":2}`, `{"b":{"c":null,"x":{"y":null,"z":1}}}`, `[3]`, `"t"`, `{"e":{"f":{}}}`, `{"big":null,"n":"` + strings.Repeat("p", 70000) + `"}`, `{"pct":"50%"}`}
+var c12CLIPatches = []string{`{"a":null,"b":2}`, `{"b":{"c":null,"x":{"y":null,"z":1}}}`, `[3]`, `"t"`, `{"e":{"f":{}}}`, `{"big":null,"n":"` + strings.Repeat("p", 70000) + `"}`, `{"pct":"50%"}`,
+	`{"a":null,"e":"\ud83d\ude00 \u007f\u0085\u2028"}`, `{"n":9223372036854775808,"m":-0,"k":1e21}`}
 
 func runC12CLI(c *engine.Case) engine.Result {
 	bin := strings.TrimPrefix(c.Kind, "c12cli:")
@@ -154,6 +155,10 @@ func runC12CLI(c *engine.Case) engine.Result {
 	defer os.RemoveAll(dir)
 	fp := cli.WriteFile(dir, "patch.json", c.B)
 	args := []string{"-p", "-f", "merge", fp}
+	if c.X == "yaml-file" {
+		// -yaml changes how the documents are read and written, not how the RFC 7386 patch file is read
+		args = []string{"-yaml", "-p", "-f", "merge", fp}
+	}
 	var stdin *string
 	if c.X == "stdin" {
 		stdin = &c.A
@@ -168,6 +173,14 @@ func runC12CLI(c *engine.Case) engine.Result {
 		return s
 	}
 	got, perr := ref.Parse(out.Stdout)
+	if c.X == "yaml-file" && out.Exit == 0 {
+		perr = fmt.Errorf("unreadable YAML output")
+		impl.Guard(func() {
+			if n, err := jd.ReadYamlString(out.Stdout); err == nil {
+				got, perr = impl.ToV(n)
+			}
+		})
+	}
 	switch {
 	case out.Timeout:
 		res.Violation = "CLI did not terminate"
